@@ -126,7 +126,11 @@ def full_case(rng, st):
         df = True
     elif r < 0.8:
         df = name(rng)
-        out += df + rng.choice([", ", " at 332, ", ", at 12, "])   # antecedent form
+        prev = [n for n in st.get("names", []) if n[1] not in (None, True)]
+        if prev and rng.random() < 0.5:        # the name of a case cited earlier: also a reference citation
+            p_ = rng.choice(prev)
+            df = rng.choice([x for x in p_ if x and x is not True]).split(" ")[0]
+        out += df + rng.choice([", ", " at 332, ", ", at 12, ", " at 5, "])   # antecedent form
     st.setdefault("names", []).append((pl, df))
     out += core
     if rng.random() < 0.4:
@@ -145,7 +149,8 @@ def full_case(rng, st):
         out += f" [{year(rng)}]"
     if rng.random() < 0.2:
         out += rng.choice([" (overruling prior cases)", " (holding that (a) is void)", " (per curiam) (en banc)",
-                           " (unbalanced (paren", " (Scalia, J., dissenting)"])
+                           " (unbalanced (paren", " (Scalia, J., dissenting)", " (  holding that x is y)",
+                           " ( noting the split )", " (holding that x is y  )", " (   )"])
     return out
 
 
@@ -286,6 +291,13 @@ def boundary_year_doc(rng):
             years += [e.end.year - 1, e.end.year, e.end.year + 1, e.end.year + 7]
     y = rng.choice(years)
     form = rng.random()
+    if form < 0.12:
+        # an unambiguous case first, then a name-pincite reference to it glued to the (possibly ambiguous) citation:
+        # the reference overlaps the later citation's prefix, so the order of filtering and disambiguation shows
+        a, b = rng.choice(NAMES), rng.choice(NAMES)
+        tail = rng.choice([f" ({y})", ""])
+        return (f"{a} v. {b}, {rng.choice([1, 3])} U.S. {rng.choice([1, 45])} (1990). See {rng.choice([a, b])} at 5, "
+                f"{rng.choice([1, 3, 12])} {R} {rng.choice([1, 45, 345])}{tail}.")
     if form < 0.7:
         return f"{rng.choice(NAMES)} v. {rng.choice(NAMES)}, {rng.choice([1, 3, 12])} {R} {rng.choice([1, 45, 345])} ({y})."
     if form < 0.85:
